@@ -27,6 +27,10 @@ def corpus():
         "run prop=C07 mode=users conc=2 dur=300 body=1 maxit=24 failevery=3 failkind=panicerr combine=1",
         "run prop=C07 mode=users conc=2 dur=300 body=1 maxit=24 failevery=2 failkind=nilmap combine=1",
         "run prop=C07 mode=constant rate=6/50ms dur=300 conc=3 body=2 failevery=4 failkind=timefail",
+        "run prop=C07 mode=users conc=2 dur=300 body=1 maxit=20 failevery=2 failkind=paniclong",
+        "run prop=C07 mode=users conc=2 dur=300 body=1 maxit=20 failevery=3 failkind=panicunhash",
+        "run prop=C07 mode=users conc=2 dur=300 body=1 maxit=20 failevery=2 failkind=errunhash",
+        "run prop=C07 mode=users conc=2 dur=300 body=1 maxit=20 failevery=2 failkind=panicint",
         "cli mode=users dur=%s conc=2 bodyms=5 failevery=2 failkind=panicerr logfile=bad" % hx("200ms"),
         "cli mode=users dur=%s conc=2 bodyms=5 failevery=3 failkind=errorf logfile=bad" % hx("200ms"),
         "cli mode=users dur=%s conc=1 bodyms=2 maxit=8 failevery=2 failkind=nilmap combine=1 expectlimit=1" % hx("300ms"),
@@ -52,7 +56,7 @@ def generate(rng, tier):
                     b += ".L%d" % rng.randint(0, 9)
             bodies.append(b)
         out.append("scn %d _/%s %s" % (rng.choice([nb, nb, 2 * nb, nb + 1]), "|".join(bodies), _scn.cleanups(rng, ncl, 0.3)))
-    kinds = ["failnow", "panicerr", "panicstr", "nilmap", "errorf", "timefail", "timeerr"]
+    kinds = ["failnow", "panicerr", "panicstr", "nilmap", "errorf", "timefail", "timeerr", "errunhash", "panicunhash", "paniclong", "panicint"]
     for _ in range({"quick": 6, "thorough": 60, "search": 16}[tier]):
         if rng.random() < 0.5:
             out.append("run prop=C07 mode=%s dur=300 conc=%d body=%d maxit=%d failevery=%d failkind=%s%s" % (
